@@ -23,3 +23,76 @@
         #[verifier::external_body]
         fn try_from(x: &'a BigInt) -> (r: Result<u32, TryFromBigIntError>) { unimplemented!() }
     }
+
+    // ---- more operators on reference operands
+    impl<'a, 'b> RemSpecImpl<&'b BigInt> for &'a BigInt {
+        open spec fn obeys_rem_spec() -> bool { true }
+        open spec fn rem_req(self, rhs: &'b BigInt) -> bool { rhs@ != 0 }
+        open spec fn rem_spec(self, rhs: &'b BigInt) -> BigInt { mk(trem(self@, rhs@)) }
+    }
+    impl<'a, 'b> core::ops::Rem<&'b BigInt> for &'a BigInt {
+        type Output = BigInt;
+        #[verifier::external_body]
+        fn rem(self, rhs: &'b BigInt) -> (r: BigInt) { unimplemented!() }
+    }
+    impl<'a> ShlSpecImpl<usize> for &'a BigInt {
+        open spec fn obeys_shl_spec() -> bool { true }
+        open spec fn shl_req(self, rhs: usize) -> bool { true }
+        open spec fn shl_spec(self, rhs: usize) -> BigInt { mk(self@ * vstd::arithmetic::power2::pow2(rhs as nat)) }
+    }
+    impl<'a> core::ops::Shl<usize> for &'a BigInt {
+        type Output = BigInt;
+        #[verifier::external_body]
+        fn shl(self, rhs: usize) -> (r: BigInt) { unimplemented!() }
+    }
+    impl<'a> ShrSpecImpl<usize> for &'a BigInt {
+        open spec fn obeys_shr_spec() -> bool { true }
+        open spec fn shr_req(self, rhs: usize) -> bool { true }
+        /// `>>` rounds toward negative infinity (floor), as documented by num-bigint
+        open spec fn shr_spec(self, rhs: usize) -> BigInt { mk(self@ / (vstd::arithmetic::power2::pow2(rhs as nat) as int)) }
+    }
+    impl<'a> core::ops::Shr<usize> for &'a BigInt {
+        type Output = BigInt;
+        #[verifier::external_body]
+        fn shr(self, rhs: usize) -> (r: BigInt) { unimplemented!() }
+    }
+    impl<'a> NegSpecImpl for &'a BigInt {
+        open spec fn obeys_neg_spec() -> bool { true }
+        open spec fn neg_req(self) -> bool { true }
+        open spec fn neg_spec(self) -> BigInt { mk(-self@) }
+    }
+    impl<'a> core::ops::Neg for &'a BigInt {
+        type Output = BigInt;
+        #[verifier::external_body]
+        fn neg(self) -> (r: BigInt) { unimplemented!() }
+    }
+    impl<'a, 'b> BitAndSpecImpl<&'b BigInt> for &'a BigInt {
+        open spec fn obeys_bitand_spec() -> bool { true }
+        open spec fn bitand_req(self, rhs: &'b BigInt) -> bool { true }
+        open spec fn bitand_spec(self, rhs: &'b BigInt) -> BigInt { mk(crate::num_bigint::bitand_spec(self@, rhs@)) }
+    }
+    impl<'a, 'b> core::ops::BitAnd<&'b BigInt> for &'a BigInt {
+        type Output = BigInt;
+        #[verifier::external_body]
+        fn bitand(self, rhs: &'b BigInt) -> (r: BigInt) { unimplemented!() }
+    }
+    impl<'a, 'b> BitOrSpecImpl<&'b BigInt> for &'a BigInt {
+        open spec fn obeys_bitor_spec() -> bool { true }
+        open spec fn bitor_req(self, rhs: &'b BigInt) -> bool { true }
+        open spec fn bitor_spec(self, rhs: &'b BigInt) -> BigInt { mk(crate::num_bigint::bitor_spec(self@, rhs@)) }
+    }
+    impl<'a, 'b> core::ops::BitOr<&'b BigInt> for &'a BigInt {
+        type Output = BigInt;
+        #[verifier::external_body]
+        fn bitor(self, rhs: &'b BigInt) -> (r: BigInt) { unimplemented!() }
+    }
+    impl<'a, 'b> BitXorSpecImpl<&'b BigInt> for &'a BigInt {
+        open spec fn obeys_bitxor_spec() -> bool { true }
+        open spec fn bitxor_req(self, rhs: &'b BigInt) -> bool { true }
+        open spec fn bitxor_spec(self, rhs: &'b BigInt) -> BigInt { mk(crate::num_bigint::bitxor_spec(self@, rhs@)) }
+    }
+    impl<'a, 'b> core::ops::BitXor<&'b BigInt> for &'a BigInt {
+        type Output = BigInt;
+        #[verifier::external_body]
+        fn bitxor(self, rhs: &'b BigInt) -> (r: BigInt) { unimplemented!() }
+    }
